@@ -459,6 +459,11 @@ impl<'a> Interp<'a> {
 
     fn convert_field(&self, f: &Field, it: &Item) -> Conv {
         let mut v = self.from_meta(&f.ty, it)?;
+        if let (Ty::Opt(inner), true) = (&f.ty, f.with != With::None) {
+            if let (Ty::Sc(sc), Some(x)) = (&**inner, v.get("some").cloned()) {
+                v = json!({ "some": apply_with(*sc, x) });
+            }
+        }
         if let Ty::Sc(sc) = f.ty {
             if f.with != With::None {
                 v = apply_with(sc, v);
